@@ -5,14 +5,16 @@
    bound the native recursion of the parser and the depth of the AST it hands to the (recursive)
    compiler and destructors, independently of the input length.
 
-   Statements only; proofs in Proofs/ParseDepthProofs.v, ParseDepthLimits.v, ParseDepthAst.v.
+   Statements only; proofs in Proofs/ParseDepthProofs.v, ParseDepthLimits.v, ParseDepthAst.v,
+   ParseDepthNoPanic.v; the lexer half cites Props/C08.v and Props/C12.v.
    `cfg` = the five limits of the parser; `cfg_tree` = their values in the working tree
    (re-extracted on every run: Gen/Tables.v, Gen/ParseLimits.v); `cfg_unrepaired` = the tree
    before fixes/D11-ast-depth.patch (no MAX_EXPRESSION_DEPTH / MAX_ELIF_DEPTH). *)
 From Coq Require Import List Arith ZArith Lia.
 From TeraV Require Import Model.Value Model.Instr Model.Optimize Proofs.OptimizeProofs Props.C09.
+From TeraV Require Spec.Utf8Chars Model.Lexer Model.Report Proofs.LexerSpans Props.C08 Props.C12.
 From TeraV Require Import Gen.Tables Gen.ParseLimits Model.ParseDepth
-  Proofs.ParseDepthProofs Proofs.ParseDepthLimits Proofs.ParseDepthAst.
+  Proofs.ParseDepthProofs Proofs.ParseDepthLimits Proofs.ParseDepthAst Proofs.ParseDepthNoPanic.
 Import ListNotations.
 Local Open Scope nat_scope.
 
@@ -100,6 +102,72 @@ Theorem C06_nesting_limit_is_syntax_error_parens : forall C n fuel rest,
   nok (parse C fuel (TVarStart :: repeat TLParen n ++ rest)).
 Proof. exact parens_beyond_limit_rejected. Qed.
 
+(* THE `unreachable!` ARM OF parse_until_inner (parser.rs:1699) IS DEAD on every token stream the
+   lexer can produce: template-level tokens in the Template state, anything else inside
+   {{ }} / {% %}, each closed by its own end token, the stream stopping anywhere or at the first
+   error item (lexer_shaped, Proofs/ParseDepthNoPanic.v) - for every limit configuration and
+   every fuel.  (The other `unreachable!`/`expect` sites of parser.rs - 277 `start.expect`, 715 -
+   are dead by construction in the model: the corresponding match arms do not exist; those of
+   compiler.rs are outside this skeleton and stay with the runtime oracle.) *)
+Theorem C06_parser_unreachables_unreachable : forall C fuel ts,
+  lexer_shaped MT ts = true ->
+  match parse C fuel ts with RPanic _ => False | _ => True end.
+Proof. exact parse_never_panics_on_lexer_streams. Qed.
+
+(* the hypothesis actually used is weaker and local: each Content / VariableEnd / TagEnd token
+   before the first error item is followed by the end of the stream or by a template-level token,
+   and the stream starts with one *)
+Theorem C06_parser_unreachables_unreachable_local : forall C fuel ts,
+  cok ts = true -> headok ts = true ->
+  match parse C fuel ts with RPanic _ => False | _ => True end.
+Proof. exact parse_never_panics. Qed.
+
+(* ... and some such hypothesis is needed: on a token list no lexer run yields (an expression
+   token at template level) the arm IS reached *)
+Theorem C06_parser_unreachable_reached_off_lexer_streams :
+  exists ts, lexer_shaped MT ts = false /\
+    match parse cfg_tree (fuel_for ts) ts with RPanic _ => True | _ => False end.
+Proof. exists [TAtom]. vm_compute. split; [reflexivity | exact I]. Qed.
+
+(* THE LEXER HALF, by citation.  Model/Lexer.v (C08) is a byte-level port of the WHOLE of
+   basic_tokenize: the Template state (delimiter tests, check_ws_start!, raw blocks through
+   skip_tag / memstr, comments, text up to find_start_marker) and the Variable/Tag state
+   (scan_inside: whitespace skipping, end-delimiter tests, and inner_token = spread, two- and
+   one-byte operators, lex_string! with its escape flag and unescaping, lex_number! with the i64
+   range test, identifiers, true/false).  Cited:
+     1. TERMINATION (C08_lexer_total): for every delimiter set accepted by validate and every
+        source, the run never needs more iterations than bytes + 1: each iteration of the main
+        loop and of scan_inside consumes at least one byte.
+     2. IN BOUNDS (C08_token_ranges_in_source): every (start, end) byte range of an accepted run
+        is ordered and lies inside the source, so no advance!(n) has n > rest.len().
+     3. SLICING (C12_advance_total_on_boundaries / C12_advance_panics_off_boundary, Model/Report.v):
+        advance!(n) = split_at(n) + location bookkeeping succeeds, with both pieces valid UTF-8
+        again, exactly when n is a character boundary of the valid-UTF-8 rest, and panics otherwise.
+   PARTIAL - what is missing for "no slicing panic": that the offsets the lexer model computes ARE
+   character boundaries.  Model/Lexer.v states in its header that the boundary test of
+   split_at / get(..) is not modelled (offsets are next to ASCII bytes or 2-byte delimiters), and
+   no theorem of C08 or C12 derives it; nor are `&s[1..s.len() - 1]` in lex_string!, f64 parsing
+   and the Display of tokens modelled.  These stay with the runtime oracle of this property
+   (streams `multibyte-at-delimiter`, `delimiters` with 2-byte-character delimiters, every prefix
+   and single-character deletion of the corpus: a slicing panic would be a dead child or a caught
+   panic) and with C12's implementation-side span check. *)
+Theorem C06_lexer_total_and_boundary_safe_partial :
+  (forall dl src, Lexer.validate dl = Value.ROk tt ->
+     Lexer.lex_ptoks dl src <> Value.RErr Value.ErrPanic) /\
+  (forall dl src pt s e, Lexer.validate dl = Value.ROk tt -> Lexer.lex_ptoks dl src = Value.ROk pt ->
+     In (s, e) (LexerSpans.offsets 0 pt) -> s <= e /\ e <= length src) /\
+  (forall st rest n, Utf8Chars.valid_utf8 rest -> n <= length rest ->
+     Report.is_char_boundary rest n = true ->
+     exists st', Report.advance st rest n = Some (st', firstn n rest, skipn n rest) /\
+       Utf8Chars.valid_utf8 (firstn n rest) /\ Utf8Chars.valid_utf8 (skipn n rest) /\
+       st' = Report.advance_over st (firstn n rest)) /\
+  (forall st rest n, Report.is_char_boundary rest n = false -> Report.advance st rest n = None).
+Proof.
+  split; [exact C08.C08_lexer_total|].
+  split; [exact C08.C08_token_ranges_in_source|].
+  split; [exact C12.C12_advance_total_on_boundaries | exact C12.C12_advance_panics_off_boundary].
+Qed.
+
 (* THE FUSION PASS NEVER INDEXES OUT OF BOUNDS (panic-freedom of Chunk::optimize): for every
    chunk whose jump targets are in range the ported pass returns Some, i.e. no index_map /
    is_jump_target access fell outside (reuse of the C09 structure theorem) *)
@@ -117,6 +185,9 @@ Print Assumptions C06_ast_depth_bounded_refuted.
 Print Assumptions C06_ast_depth_bounded.
 Print Assumptions C06_nesting_limit_is_syntax_error_parens.
 Print Assumptions C06_optimize_indices_in_bounds.
+Print Assumptions C06_parser_unreachables_unreachable.
+Print Assumptions C06_parser_unreachable_reached_off_lexer_streams.
+Print Assumptions C06_lexer_total_and_boundary_safe_partial.
 
 (* non-vacuity: real runs with enough fuel *)
 Example C06_ex_accepts :
@@ -147,3 +218,10 @@ Example C06_ex_chain_limits :
   (match parse cfg_patched (fuel_for (elif_chain 501)) (elif_chain 501) with
    | RErr _ => True | _ => False end).
 Proof. vm_compute. repeat split. Qed.
+
+(* a real template shape: `x{{ a }}{% if a %}x{% endif %}` is lexer-shaped and accepted *)
+Example C06_ex_lexer_shaped :
+  let ts := [TText; TVarStart; TWord (WId 0); TVarEnd; TTagStart; TWord WIf; TWord (WId 0); TTagEnd; TText;
+             TTagStart; TWord WEndif; TTagEnd] in
+  lexer_shaped MT ts = true /\ match parse cfg_tree (fuel_for ts) ts with ROk _ _ => True | _ => False end.
+Proof. vm_compute. split; [reflexivity | exact I]. Qed.
